@@ -376,7 +376,7 @@ func RunScn(scn Scn, env *runner.Env, res *runner.Result, which string) {
 	w.a = a
 	// initial application data (committed before the syncer starts)
 	_, err = lmdbx.Update(a.Env, func(txn *lmdb.Txn) error {
-		for _, kv := range [][2]string{{"base1", "b1"}, {"victim", "old"}, {"victim2", "old2"}, {"same", "same-value"}} {
+		for _, kv := range [][2]string{{"base1", "b1"}, {"victim", "old"}, {"victim2", "old2"}, {"same", "same-value"}, {"predel", "to-be-deleted"}} {
 			var err error
 			if scn.Native {
 				err = inst.NativePut(txn, "d", []byte(kv[0]), uint64(time.Now().UnixNano()), false, []byte(kv[1]))
@@ -427,6 +427,26 @@ func RunScn(scn Scn, env *runner.Env, res *runner.Result, which string) {
 	if s0, _ := w.newestOwn(); s0 == nil && !scn.ReceiveOnly {
 		res.Violate("no-startup-snapshot", "an instance started with data and an empty bucket is idle without having uploaded a snapshot", w.witness("startup"))
 		return
+	}
+	if !scn.AtStartup {
+		// an ordinary earlier deletion: from here on the timestamped state holds a deletion marker (a strategy meets
+		// it on every later capture)
+		aw := appWrite{DBI: "d", Kind: "delete", At: "after start-up", Key: "predel", Del: true}
+		w.s.Note(a.Name, "APP BEGIN delete predel")
+		id, _ := lmdbx.Update(a.Env, func(txn *lmdb.Txn) error {
+			if scn.Native {
+				aw.TS = uint64(time.Now().UnixNano())
+				return inst.NativePut(txn, "d", []byte("predel"), aw.TS, true, nil)
+			}
+			return lmdbx.Del(txn, "d", []byte("predel"))
+		})
+		aw.TxnID = id
+		w.writes = append(w.writes, aw)
+		w.s.Note(a.Name, fmt.Sprintf("APP COMMIT txn %d: delete d[predel]", id))
+		if ok, why := w.loop.WaitQuiescent(nil, 3, wd); !ok {
+			res.Verdict, res.Msg = runner.Inconclusive, "no quiescence after the preparatory deletion: "+why
+			return
+		}
 	}
 	if scn.AtStartup {
 		if !w.s.Fired(arms[0]) {
